@@ -9,5 +9,7 @@ RowJson(r) == IF r = NULLROW THEN [null |-> TRUE, pairs |-> <<>>] ELSE [null |->
 Export == pc = "done" =>
   PrintT(ToJson([mopt |-> mopt, vopt |-> vopt, colname |-> colname, rows |-> [i \in DOMAIN rows |-> RowJson(rows[i])],
                  streamK |-> StreamK, streamV |-> StreamV, cutsK |-> SetToSeq(cutsK), cutsV |-> SetToSeq(cutsV),
-                 model_ok |-> (~bad /\ result = rows)]))
+                 model_ok |-> (~bad /\ result = rows), misplaced |-> bad,
+                 mech |-> [i \in DOMAIN result |-> IF result[i] = NULLROW \/ result[i] = NOTSET
+                                                    THEN [null |-> TRUE, pairs |-> <<>>] ELSE [null |-> FALSE, pairs |-> result[i]]]]))
 =============================================================================
